@@ -23,6 +23,56 @@ func isPoolCall(ins ssa.Instruction, name string) (*ssa.Call, bool) {
 	return c, c.Call.StaticCallee().String() == "(*sync.Pool)."+name
 }
 
+// handleFieldUse: ins uses (other than comparing with nil or taking len/cap) the value loaded from a
+// slice-, pointer- or map-typed field of the method's receiver; the field's name is returned.
+func handleFieldUse(ins ssa.Instruction, fn *ssa.Function) string {
+	if len(fn.Params) == 0 {
+		return ""
+	}
+	recv := fn.Params[0]
+	switch t := ins.(type) {
+	case *ssa.BinOp:
+		if t.Op == token.EQL || t.Op == token.NEQ {
+			return ""
+		}
+	case *ssa.Call:
+		if b, ok := t.Call.Value.(*ssa.Builtin); ok && (b.Name() == "len" || b.Name() == "cap") {
+			return ""
+		}
+		if _, ok := isPoolCall(ins, "Put"); ok {
+			return ""
+		}
+	case *ssa.Phi, *ssa.FieldAddr:
+		return ""
+	case *ssa.Store:
+		// storing a value into a field of the handle is not a use of the memory behind it
+		if _, isFA := t.Addr.(*ssa.FieldAddr); isFA {
+			return ""
+		}
+	}
+	for _, op := range ins.Operands(nil) {
+		if *op == nil {
+			continue
+		}
+		ld, ok := (*op).(*ssa.UnOp)
+		if !ok || ld.Op != token.MUL {
+			continue
+		}
+		fa, ok := ld.X.(*ssa.FieldAddr)
+		if !ok || fa.X != ssa.Value(recv) {
+			continue
+		}
+		switch ld.Type().Underlying().(type) {
+		case *types.Slice, *types.Pointer, *types.Map:
+			if strings.HasSuffix(ld.Type().String(), "sync.Pool") {
+				continue
+			}
+			return fieldName(fa)
+		}
+	}
+	return ""
+}
+
 // usesAny reports whether ins reads one of the values.
 func usesAny(ins ssa.Instruction, set map[ssa.Value]bool) bool {
 	for _, op := range ins.Operands(nil) {
@@ -130,6 +180,13 @@ func C17pool(p *load.Program, run *report.Run) {
 									continue
 								}
 								bad = fmt.Sprintf("%s uses the scratch after Put", p.Rel(in2.Pos()))
+							}
+							// the handle's exported slices are views into the scratch: reading or writing their
+							// elements after the Put races with the next Garble that took the scratch
+							if g == release && bad == "" {
+								if fld := handleFieldUse(in2, g); fld != "" {
+									bad = fmt.Sprintf("%s touches the memory behind the handle's field %s after the scratch was returned to the pool: a concurrent Garble may already own it", p.Rel(in2.Pos()), fld)
+								}
 							}
 						}
 						for _, s := range x.Succs {
